@@ -90,7 +90,7 @@ def run_case(case):
                 fb = np.asarray(trial._calc_force_bias(jnp.array(wu), jnp.array(wd), hd, wd_))
             else:
                 fb = np.asarray(trial._calc_force_bias_restricted(jnp.array(wu), hd, wd_))
-            tol = 1e-9 * Lnorm * (1 + cond / 10) / rel
+            tol = 2e-11 * Lnorm * (1 + cond / 10) / rel   # observed residuals stay below 1e-4 of this on the pinned tree (all kinds, both tiers)
             events.append(judge("force-bias/single-" + entry, float(np.max(np.abs(fb - ref))), tol,
                                 "%s/fb-%s" % (key0, entry), code=fb, ref=ref, ovl_rel=rel))
             cnt["fb_" + entry] += 1
